@@ -259,3 +259,48 @@ def determinant_contract(eng, scalar="d"):
         eng.contracts_hit["determinant"] = eng.contracts_hit.get("determinant", 0) + 1
         return SV(z3.simplify(d(T)))
     eng.overrides.append((lambda nm: nm == "_ZNK5Eigen10MatrixBaseINS_6MatrixI%sLin1ELin1ELi0ELin1ELin1EEEE11determinantEv" % scalar, det))
+
+
+# ----------------------------------------------------------------------------- SelfAdjointEigenSolver (fixed size)
+
+def eigen_solver_contract(eng, scalar="d"):
+    """SelfAdjointEigenSolver<Matrix<S,D,D>>::compute(block): ascending eigenvalues l, orthonormal V (columns and rows),
+    C V = V diag(l).  Results are written to m_eivec / m_eivalues."""
+    install_overrides(eng)
+    ty = ir.DOUBLE if scalar == "d" else ir.FLOAT
+
+    def compute(eng, st, fr, ins, a):
+        this, blk = a[0], a[1]
+        data = eng.load(st, blk, ir.PtrT(ty))
+        rows = eng.load(st, blk + 8, ir.I64)
+        cols = eng.load(st, blk + 16, ir.I64)
+        base, size = eng.find_alloc(st, data)
+        if base is None or not isinstance(rows, int) or rows != cols:
+            raise Inconclusive("eigen-solver contract: cannot read the input block")
+        import math
+        ps = int(round(math.sqrt(size / ty.size)))
+        D = rows
+        C = [[_term(eng, eng.load(st, data + (c2 * ps + r) * ty.size, ty)) for c2 in range(D)] for r in range(D)]
+        tthis = ins.a[1][0][0][2].resolve()
+        t = tthis.elem.resolve() if tthis.k == "ptr" else None
+        offs = t.offsets if t is not None and t.k == "struct" else [0, D * D * ty.size]
+        V = [[SV(eng.fresh("eigV", z3.RealSort())) for _ in range(D)] for _ in range(D)]
+        L = [SV(eng.fresh("eigL", z3.RealSort())) for _ in range(D)]
+        for i in range(D):
+            for j in range(i, D):
+                st.assume(eng.mark_def(sum((V[r][i].e * V[r][j].e for r in range(D)), RV(0)) == (1 if i == j else 0)))
+                st.assume(eng.mark_def(sum((V[i][c2].e * V[j][c2].e for c2 in range(D)), RV(0)) == (1 if i == j else 0)))
+        for i in range(D - 1):
+            st.assume(eng.mark_def(L[i].e <= L[i + 1].e))
+        for r in range(D):
+            for j in range(D):
+                st.assume(eng.mark_def(sum((C[r][k2] * V[k2][j].e for k2 in range(D)), RV(0)) == L[j].e * V[r][j].e))
+        for c2 in range(D):
+            for r in range(D):
+                eng.store(st, this + offs[0] + (c2 * D + r) * ty.size, ty, V[r][c2])
+        for i in range(D):
+            eng.store(st, this + offs[1] + i * ty.size, ty, L[i])
+        st.user.setdefault("eig", []).append(dict(C=C, V=V, L=L))
+        eng.contracts_hit["SelfAdjointEigenSolver::compute"] = eng.contracts_hit.get("SelfAdjointEigenSolver::compute", 0) + 1
+        return this
+    eng.overrides.append((lambda nm: "22SelfAdjointEigenSolverINS_6MatrixI%s" % scalar in nm and "7computeI" in nm, compute))
